@@ -4,6 +4,7 @@ package main
 
 import (
 	"bytes"
+	"crypto/sha1"
 	"context"
 	"fmt"
 	"os"
@@ -402,10 +403,7 @@ var solverSem = make(chan struct{}, 16)
 func solve(query string, timeout time.Duration, workdir string, tag string, wantAgree int) SolverResult {
 	solverSem <- struct{}{}
 	defer func() { <-solverSem }()
-	f := filepath.Join(workdir, sanitize(tag)+".smt2")
-	if len(filepath.Base(f)) > 200 {
-		f = filepath.Join(workdir, sanitize(tag)[:180]+fmt.Sprintf("_%d.smt2", len(tag)))
-	}
+	f := queryFile(workdir, tag)
 	if err := os.WriteFile(f, []byte(query), 0o644); err != nil {
 		return SolverResult{Status: "error", Output: err.Error()}
 	}
@@ -633,4 +631,14 @@ func droppable(note string) bool {
 		}
 	}
 	return false
+}
+
+// queryFile: a unique, readable file name for a query.
+func queryFile(workdir, tag string) string {
+	h := sha1.Sum([]byte(tag))
+	name := sanitize(tag)
+	if len(name) > 120 {
+		name = name[:120]
+	}
+	return filepath.Join(workdir, fmt.Sprintf("%s_%x.smt2", name, h[:5]))
 }
